@@ -69,6 +69,36 @@ def trace_validate(work, prop, invariants, trace_file, ev, module="ContractTrace
     lines = open(path).read().splitlines()
     nexec = sum(1 for l in lines if l.startswith('{"ev":"reset"'))
     known_reported = set()
+    # executions of an input shape for which an open finding is recorded are judged on their own (by the finding's
+    # invariant only, which no other execution can violate), so that the large remainder is validated once
+    for k in vlib.load_known().get("open", []):
+        fam, kinv = k.get("matcher", {}).get("family"), k.get("matcher", {}).get("invariant")
+        if prop not in k.get("properties", []) or not fam or kinv not in invariants:
+            continue
+        mine, rest, take = [], [], False
+        for x in lines:
+            if x.startswith('{"ev":"reset"'):
+                take = json.loads(x)["scn"].get("family", "").startswith(fam)
+            (mine if take else rest).append(x)
+        if not mine:
+            continue
+        kfile = "known_%s_%s" % (k["id"], trace_file)
+        open(work.path(kfile), "w").write("\n".join(mine) + "\n")
+        cfg = write_cfg(work, "CTK_%s.cfg" % prop, "Spec", [kinv], constants={"TraceFile": '"%s"' % kfile})
+        res = work.tlc(module, cfg, workers=1, timeout=1200)
+        ev.add_tlc("%s-known-%s" % (label, k["id"]), res, "trace_validation")
+        if res["violated"]:
+            print("KNOWN-FINDING: property=%s %s" % (prop, k["what"]), flush=True)
+            known_reported.add(k["id"])
+            ev.doc.setdefault("known_findings_observed", []).append(k["id"])
+        elif not (res["ok"] and not res["post_false"]):
+            raise Infra("trace validation (known finding %s) did not complete:\n%s" % (k["id"], res["out"][-2000:]))
+        # every other invariant applies to these executions like to any other
+        others = [i for i in invariants if i != kinv]
+        if others and trace_validate(work, prop, others, kfile, ev, module=module, label=label + "-known-rest"):
+            return 1
+        lines = rest
+        open(path, "w").write("\n".join(lines) + "\n")
     for iteration in range(40):
         cfg = write_cfg(work, "CT_%s.cfg" % prop, "Spec", invariants, constants={"TraceFile": '"%s"' % trace_file})
         res = work.tlc(module, cfg, workers=1, timeout=3000)
